@@ -186,14 +186,46 @@ def run(ctx):
                  bad or "%d path pairs (same conditions, different collateral kind): required increments equal pulled amounts" % pairs)
         ctx.inst("R13.2", "terminal-check:%s" % ckey, term_bad is None, st.fn.where(), term_bad or "every native terminal success path passes the exact-match check")
 
-    # ---- R13.3: a cw20 pull from the trader in a step that has no native accounting at all
-    ctx.rule("R13.3", "no chain step pulls cw20 funds from the trader without a native counterpart (attached-funds accounting)", 2)
+    # ---- R13.3: the premise of the property is that a native call attaches what the cw20 twin pulls *from the
+    # caller*; a cw20 pull from any other account (e.g. the liquidated trader) has no native counterpart at all
+    ctx.rule("R13.3", "every cw20 pull (TransferFrom) a chain step can emit is from the account that sent the transaction", 5)
     for ckey in sorted(em.chains):
-        if ckey.startswith("OpenPosition>"):
-            continue  # covered pairwise by R13.1b
+        sts = em.chains[ckey]
+        st = sts[-1]
+        root = ckey.split(">")[0]
+        depth0 = len(sts) == 1
+        pulls = []
+        bad = None
+        for q in st.ok_paths():
+            for e in q.events:
+                if e.target is None:
+                    continue
+                for s2 in model.reachable_submsgs(ix, e.target, ix.param_map(e.target, e.args)):
+                    for (k2, payer, recv, amount) in transfers_of(ix, s2):
+                        if k2 != "cw20-transfer-from":
+                            continue
+                        pulls.append(norm.show(N(ix, amount)))
+                        payer_s = st.s(payer)
+                        if root == "Liquidate":
+                            okp = guards.loaded_item(ix, payer, ENG) == LIQ or payer_s == st.sender
+                        elif depth0:
+                            okp = payer == st.sender or payer_s == st.sender
+                        else:
+                            okp = em.tmp(payer, "trader") or em.tmp(payer_s, "trader")
+                        if not okp:
+                            bad = bad or "pulls %s from %s, which is not the caller of this transaction" % (norm.show(N(ix, amount)), sym.show(payer, 5))
+        if not pulls:
+            continue
+        ctx.inst("R13.3", "pull-from-caller:%s" % ckey, bad is None, st.fn.where(),
+                 bad or "%d cw20 pull constructions, all from the caller (%s)" % (len(pulls), "info.sender" if depth0 else "the in-flight record's trader, set from info.sender (R10.2)"))
+
+    # ---- R13.4: an arm whose chain pulls cw20 funds from the caller must not make success depend on the attached
+    # coins other than by looking up the collateral coin (the premise of the property is that the native call
+    # attaches exactly what the cw20 twin pulls, so "no coins attached" cannot be a success condition there)
+    ctx.rule("R13.4", "arms that pull cw20 funds from the caller do not condition success on the attached coins (other than the collateral-coin lookup)", 3)
+    pull_roots = {}
+    for ckey in sorted(em.chains):
         st = em.chains[ckey][-1]
-        pulls = set()
-        accounted = False
         for q in st.ok_paths():
             for e in q.events:
                 if e.target is None:
@@ -201,16 +233,42 @@ def run(ctx):
                 for s2 in model.reachable_submsgs(ix, e.target, ix.param_map(e.target, e.args)):
                     for (k2, payer, recv, amount) in transfers_of(ix, s2):
                         if k2 == "cw20-transfer-from":
-                            pulls.add(norm.show(N(ix, amount)))
-                if any(tag(ix.inline(a)) == "agg" and payload(ix.inline(a))[0].endswith("asset::Asset") for a in e.args) and guards.propagated(q, e):
-                    accounted = True  # assert_sent_native_token_balance(Asset{amount}) style
-                if e.args and "SentFunds" in " ".join(e.target.locals[i + 1]["ty"] for i in range(e.target.arg_count)) and guards.propagated(q, e):
-                    accounted = True
-        if not pulls:
+                            pull_roots.setdefault(ckey.split(">")[0], set()).add(norm.show(N(ix, amount)))
+
+    def funds_gates(q, m, depth, out):
+        for (a, o) in guards._own_facts(ix, q, m):
+            occ = [x for x in sym.walk(a) if tag(x) == "field" and payload(x)[0] == "funds"]
+            if not occ:
+                continue
+            lookup_only = all(any(tag(y) == "call" and "find" in str(payload(y)[0]) and x in set(sym.walk(y)) for y in sym.walk(a)) for x in occ)
+            if not lookup_only:
+                out.add("%s = %s" % (sym.show(a, 5), o))
+        if depth <= 0:
+            return
+        for c in guards._imports(ix, q):
+            c2 = sym.subst(c, m) if m else c
+            fn2 = ix.call_target(c2)
+            if fn2 is None:
+                continue
+            m2 = ix.param_map(fn2, kids(c2))
+            try:
+                ps = ix.ok_paths_at(fn2, m2)
+            except Exception:
+                continue
+            for p2 in ps:
+                funds_gates(p2, m2, depth - 1, out)
+
+    for root in sorted(pull_roots):
+        st = em.exec_step(root)
+        if st is None:
+            ctx.lost("R13.4", root)
             continue
-        ctx.inst("R13.3", "unaccounted-pull:%s" % ckey, accounted, st.fn.where(),
-                 "cw20 arm pulls %s from the trader; native arm %s" % (sorted(pulls), "asserts/accounts attached funds" if accounted else
-                    "has NO attached-funds accounting: with native collateral these amounts are paid out of the vault (or the call fails when the vault is short)"))
+        gates = set()
+        for q in st.ok_paths():
+            funds_gates(q, st.m, 4, gates)
+        ctx.inst("R13.4", "funds-gate:%s" % root, not gates, st.fn.where(),
+                 ("the cw20 twin pulls %s from the caller; success of the native call is conditioned on the attached coins by %s" % (sorted(pull_roots[root])[:3], sorted(gates)[:3]))
+                 if gates else "the cw20 twin pulls from the caller here; no success condition of the arm constrains the attached coins beyond the collateral-coin lookup")
 
     # exact match semantics of the check function
     chk = None
